@@ -8,6 +8,8 @@ import Driver.C01
 import Driver.C12
 import Driver.C18
 import Driver.C19
+import Driver.C07
+import Driver.C08
 
 open Driver
 
@@ -18,6 +20,8 @@ def dispatch (prop : String) (toks : List String) : String :=
   | "C12" => Driver.C12.handle toks
   | "C18" => Driver.C18.handle toks
   | "C19" => Driver.C19.handle toks
+  | "C07" => Driver.C07.handle toks
+  | "C08" => Driver.C08.handle toks
   | _ => "bad-prop"
 
 partial def loop (hin hout : IO.FS.Stream) : IO Unit := do
